@@ -424,7 +424,8 @@ class EscapeAnalysis:
                         isinstance(n.ctx, ast.Load) and \
                         isinstance(n.value, ast.Call) and \
                         isinstance(n.value.func, ast.Attribute) and \
-                        n.value.func.attr in ('split', 'rsplit') and \
+                        n.value.func.attr in ('split', 'rsplit',
+                                              'splitlines') and \
                         not isinstance(n.value.func.value, ast.Constant):
                     idx = n.slice
                     if isinstance(idx, ast.UnaryOp) and \
@@ -438,7 +439,8 @@ class EscapeAnalysis:
                         continue
                     args = n.value.args
                     nosep = not args or (isinstance(args[0], ast.Constant)
-                                         and args[0].value is None)
+                                         and args[0].value is None) or \
+                        n.value.func.attr == 'splitlines'
                     # s.split(sep) always has at least one item;
                     # s.split() is empty for a blank string
                     if nosep or k not in (0, -1):
